@@ -195,7 +195,8 @@ FilesViol(r, c, attr2, fileAtStart) ==
        IN  (IF Len(fs) = 0 \/ fs[Len(fs)] # w \/ \E i \in 1..(Len(fs) - 1) : fs[i + 1] # fs[i] + 1
             THEN {"WAL files are not a contiguous run ending at the writer's file"} ELSE {})
       \cup (IF Len(fs) > 0 /\ fs[1] < bound THEN {"a WAL file older than every retained record survives"} ELSE {})
-      \cup (IF r.st.disk # Len(fs) * FileSize THEN {"disk_used_bytes differs from the files' total size"} ELSE {})
+      \cup (IF r.st.disk # Len(fs) * FileSize \/ ("dsum" \in DOMAIN r.st /\ r.st.disk # r.st.dsum)
+            THEN {"disk_used_bytes differs from the files' total size"} ELSE {})
 
 (* C06 "and after open", for an open that recovers a process-crash image of a crash-free history.      *)
 (* Retained records keep the attribution they had before the crash (records of a recovered in-flight   *)
@@ -233,7 +234,8 @@ FilesViolCrash(r, c) ==
                  THEN {"after recovery of an image whose oldest file begins with orphaned continuation frames: the record that follows them is attributed to that file, which is therefore not reclaimed"}
                  ELSE {"after recovery: a WAL file older than every retained record and than the file recovery resumed in survives"}
             ELSE {})
-      \cup (IF r.st.disk # Len(fs) * FileSize THEN {"after recovery: disk_used_bytes differs from the files' total size"} ELSE {})
+      \cup (IF r.st.disk # Len(fs) * FileSize \/ ("dsum" \in DOMAIN r.st /\ r.st.disk # r.st.dsum)
+            THEN {"after recovery: disk_used_bytes differs from the files' total size"} ELSE {})
 
 (* --- crash monitors (C02, C03, C12, C04) --- *)
 InPend(x, pend) ==
